@@ -16,6 +16,9 @@ fn main() {
         let secs: u64 = args.get(1).and_then(|s| s.parse().ok()).unwrap_or(0);
         exit(mc::nopanic::child_time(secs));
     }
+    if args[0] == "--c17-child" {
+        exit(mc::determinism::child_digest());
+    }
     if args[0] == "--replay" {
         let path = args.get(1).unwrap_or_else(|| usage());
         let txt = std::fs::read_to_string(path).unwrap_or_else(|e| {
